@@ -75,6 +75,7 @@ func c11Extra(c *ev.Ctx) {
 		c.Count("over_limit_sets_rejected", 1)
 		c.Nontrivial(ev.Hash("over", fmt.Sprint(ws)))
 	})
+	c.Parallel(c.Pick(20000, 400000), 0, func(i int) { c12HandMadeRLP(c, c.Rand("handmade", i), i) }) // sets that come out of the decoder
 	n2 := c.Pick(20000, 400000)
 	c.Parallel(n2, 0, func(i int) {
 		r := c.Rand("reuse", i)
